@@ -576,7 +576,12 @@ class BareGitStore(GitStore):
         try:
             ref_object = self.repo[self.ref]
         except KeyError:
-            return Tree()
+            # No commits yet. Make sure the empty tree exists in the object
+            # store, since its id is handed out as ctag / sync token.
+            tree = Tree()
+            if tree.id not in self.repo.object_store:
+                self.repo.object_store.add_object(tree)
+            return tree
         if isinstance(ref_object, Tree):
             return ref_object
         else:
